@@ -8,6 +8,10 @@ def dispatch (op : String) (args : List Sexp) : String :=
   | "codec.dec" => opCodecDec args
   | "sock.recv" => opSockRecv args
   | "seq.hash" => opSeqHash args
+  | "slc.parse" => opSlcParse args
+  | "slc.readreq" => opSlcReadReq args
+  | "slc.writereq" => opSlcWriteReq args
+  | "slc.reply" => opSlcReply args
   | "k.plan" => opKPlan args
   | "k.masks" => opKMasks args
   | "k.boolwin" => opKBoolWin args
@@ -51,6 +55,7 @@ def dispatchState (tgt : Option FullTarget) (op : String) (args : List Sexp) : O
   | "target.log", some t => let (t', out) := targetLog t; (some t', out)
   | "target.state", some t => (tgt, targetState t)
   | "target.mem", some t => (tgt, targetMem t)
+  | "target.slc", some t => (tgt, targetSlc t)
   | "target.tcpclose", some t => (some (Tgt.tcpClosed t), "ok")
   | _, _ => (tgt, dispatch op args)
 
